@@ -555,6 +555,13 @@ func c11stress(args []string) int {
 		if c.Size() > c.Capacity() {
 			fail("final size above capacity")
 		}
+		// at rest the recency list and the key map must describe the same set of keys
+		lk, mk := c.VerifOrder(), c.Keys()
+		sort.Strings(lk)
+		sort.Strings(mk)
+		if strings.Join(lk, ",") != strings.Join(mk, ",") {
+			fail(fmt.Sprintf("after the run the recency list holds [%s] but the key map holds [%s]", strings.Join(lk, ","), strings.Join(mk, ",")))
+		}
 	}
 
 	// ---------------- Phase C: recorded histories
